@@ -136,6 +136,10 @@ def run(ctx, B):
                 xq, kind = queries(x, fracs, straddle=True)
                 with np.errstate(all="ignore"):
                     arg = F.inv(xq)
+                # arguments of every small magnitude above zero, far below what any 'edge - eps' reaches: a table that does not start at 0 must refuse them
+                # (a zero test written as 'x < DBL_EPSILON' lets the smallest ones through as if they were 0)
+                tinyarg = np.array([5e-324, 2.3e-308, 1e-300, 1e-100, 1e-30, 1e-17, 1e-16, 2.2e-16, 2.3e-16, 1e-15, 1e-12, 1e-9])
+                arg = np.concatenate([arg, tinyarg]); kind = np.concatenate([kind, np.ones(len(tinyarg), dtype=int)]); xq = arg
                 if fam in EXACT_FWD:
                     # arguments whose transform, computed as the library computes it, IS a knot bit for bit (inv(knot) lands within a few ulp of it; its
                     # neighbouring doubles are searched): the interval search meets x == xa[k], and on duplicated abscissae (absorption edges) h == 0
